@@ -132,7 +132,8 @@ def monopoly_position(rep, F):
             if t_[0] == "call" and t_[1].endswith("::intersects"):
                 calls[t_[1]] = inb
     n = 0
-    pts = [C(x, y) for x in range(3) for y in range(4)]
+    from ..report import thorough
+    pts = [C(x, y) for x in range(4 if thorough() else 3) for y in range(4)]
     for ts, te, bs_, be in itertools.product(pts, repeat=4):
         # x-monotone segments running left to right (vertical allowed), top above or touching bottom at both ends of the common span
         if not (ts["x"] <= te["x"] and bs_["x"] <= be["x"]) or ts == te or bs_ == be:
